@@ -353,3 +353,33 @@ package badgerstore
 //@   ensures cached: imp(!isNil(rt.v), same(val, rt.v) && isNil(err))
 //@   ensures missing: imp(isNil(rt.v) && !kvhas[keyid(bytes(rt.rname))], isErr(err, res.ErrNotFound) && isNil(val))
 //@   ensures found: imp(isNil(rt.v) && isNil(err), kvhas[keyid(bytes(rt.rname))] && !isNil(val))
+//@
+//@ # ================================================================ RebuildIndexes: drop every index, rescan the values (C12)
+//@ props C12
+//@ func (st *Store) Type() (t interface{})
+//@   requires st != nil
+//@   ensures true
+//@ func (qs *QueryStore) RebuildIndexes() (rerr error)
+//@   requires qs != nil && qs.st != nil && qs.st.DB != nil && itopen == 0 && forallint(k, imp(mapHasId(qs.idxs, k), mapValId(qs.idxs, k).Key != nil))
+//@   modifies all
+//@   # every index is dropped (its whole key range name ':' ...) before anything is rebuilt
+//@   ghost call DB.Update#1 before :: assert all.dropped: ndrop == old(ndrop) + len(qs.idxs)
+//@   ghost call DB.DropPrefix#1 before :: assert whole.index: len(arg_prefixes) == 1 && len(arg_prefixes[0]) == len(idx.Name) + 1 && bytes(arg_prefixes[0])[0:len(idx.Name)] == idx.Name && arg_prefixes[0][len(idx.Name)] == ':'
+//@   ensures none: imp(old(len(qs.idxs)) == 0, isNil(rerr) && kvhas == old(kvhas) && ndrop == old(ndrop))
+//@   loop 1 invariant ndrop == old(ndrop) + _seenn && _seenn <= len(qs.idxs) && itopen == 0 && qs != nil && qs.st != nil && qs.st.DB != nil && forallint(k, imp(mapHasId(qs.idxs, k), mapValId(qs.idxs, k).Key != nil))
+//@ # the decoding closure handed to Item.Value
+//@ func QueryStore.RebuildIndexes$1$1(dta []byte) (err error)
+//@   modifies alloc
+//@   callsite Unmarshal#1 json.UnmarshalFresh
+//@ # nset: index entries written by the rebuild
+//@ ghostvar nset int
+//@ func QueryStore.RebuildIndexes$1(txn *badger.Txn) (err error)
+//@   requires qs != nil && qs.st != nil && txn != nil && itopen == 0 && forallint(k, imp(mapHasId(qs.idxs, k), mapValId(qs.idxs, k).Key != nil))
+//@   modifies all
+//@   callback Key keyCB
+//@   # an entry is written for the scanned value under its id (the scanned key without the store prefix), built from the index and the key of the value
+//@   ghost call Txn.Set#1 before :: assert entry: len(arg_key) == len(idx.Name) + len(iv) + len(rname) + 2 && bytes(arg_key)[0:len(idx.Name)] == idx.Name && bytes(arg_key)[len(idx.Name)+1:len(idx.Name)+1+len(iv)] == bytes(iv) && bytes(arg_key)[len(idx.Name)+2+len(iv):] == bytes(rname) && ref(iv) != 0
+//@   ghost call Item.KeyCopy#1 after :: assert id: len(arg_k) >= len(prefix)
+//@   ensures closed: itopen == 0
+//@   loop 1 invariant 0 <= itpos && itopen == 1 && qs != nil && qs.st != nil && txn != nil && forallint(k, imp(mapHasId(qs.idxs, k), mapValId(qs.idxs, k).Key != nil)) && len(prefix) == len(qs.st.prefix)
+//@   loop 2 invariant 0 <= itpos && itopen == 1 && qs != nil && qs.st != nil && txn != nil && forallint(k, imp(mapHasId(qs.idxs, k), mapValId(qs.idxs, k).Key != nil)) && len(prefix) == len(qs.st.prefix) && item != nil
